@@ -31,7 +31,7 @@ m = {
     "hooks": {
         "guard": "HWLOC_VERIF_SIM",
         "enable": "hwsim/build.py compiles /repo/hwloc/*.c itself with -DHWLOC_VERIF_SIM (no hook is currently needed: every seam is a link-time --wrap, compiler instrumentation, an environment variable or a file on the simulated disk)",
-        "baseline_off_cmd": "make -C /repo check",
+        "baseline_off_cmd": "PATH=$PATH:/root/miniconda/bin make -C /repo check",
         "source_commits": md.HOOK_COMMITS,
         "add_only": True,
     },
